@@ -351,8 +351,11 @@ def specTable (cmd : String) (args : List String) : Option String :=
   | _ => none
 
 def step (st : St) (cmd : String) (args : List String) : St × String :=
-  let (st', out) := step0 st cmd args
-  (freezeSt st', out)
+  match specTable cmd args with
+  | some out => (st, out)        -- Spec commands: no state
+  | none =>
+    let (st', out) := step0 st cmd args
+    (freezeSt st', out)
 
 def mode : Drv.Mode := Drv.mkMode "tableapi" ({} : St) step
 
